@@ -47,9 +47,26 @@ func (e *hES) Exec(ctx context.Context) graphql.ResponseHandler {
 	if e.quiet {
 		return graphql.OneShot(&graphql.Response{Data: []byte(`{"ok":true}`)})
 	}
-	e.execs = append(e.execs, string(op.Operation)+":"+op.Name)
+	e.execs = append(e.execs, string(op.Operation)+":"+op.Name+hArgs(op.SelectionSet))
 	zzsym.Event("exec", string(op.Operation), op.Name)
 	return graphql.OneShot(&graphql.Response{Data: []byte(`{"ok":true}`)})
+}
+
+// hArgs renders the literal argument values of the executed document (they
+// tell two documents apart that differ only inside a literal).
+func hArgs(set ast.SelectionSet) string {
+	r := ""
+	for _, sel := range set {
+		if f, ok := sel.(*ast.Field); ok {
+			for _, a := range f.Arguments {
+				if a.Value != nil && a.Value.Kind == ast.StringValue && a.Name == "id" {
+					r += "(" + a.Value.Raw + ")"
+				}
+			}
+			r += hArgs(f.SelectionSet)
+		}
+	}
+	return r
 }
 
 // hWriter is the ResponseWriter fake; like net/http it freezes the header
